@@ -10,11 +10,12 @@ import (
 func init() {
 	Registry["C29"] = RuleDef{Module: ".", Run: runC29,
 		Technique:   "ownership typestate of the streamed connection, guard / ordering rules in RedisResultStream.WriteTo, must-pass rule on the streaming decoder's trailer consumption",
-		Explanation: "Decides (R29a) that a stream's connection is given back to the pool exactly once, only when the count of outstanding replies reaches 0, that it is closed first when an error other than end-of-stream is latched, and that a reply that could not be consumed completely latches its error and forces the count to the final reply so that the recycle step runs; (R29b) that WriteTo consumes at most one reply per call through one streamTo call, only while no error is latched and replies remain; (R29c) that the streaming decoder, after a string header, always discards the trailer `declared length + 2 - bytes copied` before reporting a clean read, the only exceptions being the null string and the chunk terminator; (R29d = R24c) that every return of pipe.DoStream / DoMultiStream either owns (pool, wire) in the stream or has stored the wire, and that mux.DoStream hands the acquired wire to them.",
+		Explanation: "Decides (R29a) that a stream's connection is given back to the pool exactly once, only when the count of outstanding replies reaches 0, that it is closed first when an error other than end-of-stream is latched, and that a reply that could not be consumed completely latches its error and forces the count to the final reply so that the recycle step runs; (R29b) that WriteTo consumes at most one reply per call through one streamTo call, only while no error is latched and replies remain; (R29c) that the streaming decoder, after a string header, always discards the trailer `declared length + 2 - bytes copied` before reporting a clean read, the only exceptions being the null string and the chunk terminator; (R29d = R24c) that every return of pipe.DoStream / DoMultiStream either owns (pool, wire) in the stream or has stored the wire, and that mux.DoStream hands the acquired wire to them. (R29e) streamTo never reports clean=true together with the error of a read from the connection.",
 		NotDecided:  "payload equality; what the io.Writer does with the bytes."}
 }
 
 func runC29(r *Report) {
+	cleanFlagRule(r)
 	p := r.P
 	const RS = "rueidis.RedisResultStream"
 	wt := r.FnAnchor("R29a", "rueidis.(*RedisResultStream).WriteTo")
@@ -201,4 +202,46 @@ func runC29(r *Report) {
 		}
 	}
 	_ = p
+}
+
+// cleanFlagRule (R29e): streamTo's `clean` result tells the stream whether the connection is still
+// at a reply boundary and may be reused. It is never reported true together with the error of a
+// read from the connection (ReadByte, readI, readNextMessage): such an error means the reply was
+// not (completely) taken off the wire.
+func cleanFlagRule(r *Report) {
+	fn := r.FnAnchor("R29e", "rueidis.streamTo")
+	if fn == nil {
+		return
+	}
+	n := 0
+	for _, b := range fn.Blocks {
+		ret, ok := b.Instrs[len(b.Instrs)-1].(*ssa.Return)
+		if !ok || len(ret.Results) != 3 {
+			continue
+		}
+		c, isc := ret.Results[2].(*ssa.Const)
+		if !isc || c.Value == nil || c.Value.String() != "true" {
+			continue
+		}
+		n++
+		bad := ""
+		if ex, isex := ret.Results[1].(*ssa.Extract); isex {
+			if call, iscall := ex.Tuple.(*ssa.Call); iscall {
+				knownNil := false
+				for _, g := range DomGuards(b) {
+					if x, op, y, cok := CmpGuard(g); cok && x == ret.Results[1] && IsNilConst(y) && op == token.EQL {
+						knownNil = true
+					}
+				}
+				switch CalleeName(call) {
+				case "bufio.(*Reader).ReadByte", "rueidis.readI", "rueidis.readNextMessage":
+					if !knownNil {
+						bad = "clean=true is returned together with the error of " + CalleeName(call)
+					}
+				}
+			}
+		}
+		r.ObSite("R29e", SiteOf(ret), "clean-only-without-a-read-error", bad == "", "a failed read from the connection is never reported as a clean reply boundary; "+bad)
+	}
+	r.Anchor("R29e", "streamTo: returns with clean=true (>= 4)", n >= 4)
 }
